@@ -114,6 +114,13 @@ func newC07(tier string) run.Job {
 		j.docs = append(j.docs, mk(c07Keys[:n], func(i int) interface{} { return float64(i + 1) }))
 		j.docs = append(j.docs, mk(c07Keys[len(c07Keys)-n:], func(i int) interface{} { return map[string]interface{}{"a": float64(i + 1)} }))
 	}
+	// keys that are not valid UTF-8 (maps built in Go: legacy encodings, binary tags); byte order
+	// is still the order, and keys that differ only in invalid bytes are still different keys
+	bad := []string{"caf\xe8", "caf\xe9", "\xff", "\xf0\x90\x80\x80", "\xc3", "a"}
+	for n := 2; n <= len(bad); n++ {
+		j.docs = append(j.docs, mk(bad[:n], func(i int) interface{} { return float64(i + 1) }))
+		j.docs = append(j.docs, mk(bad[len(bad)-n:], func(i int) interface{} { return map[string]interface{}{"a": float64(i + 1)} }))
+	}
 	return j
 }
 
